@@ -24,6 +24,11 @@ func TTL(headers http.Header, defaultTTL time.Duration) (time.Duration, bool) {
 	if !cc.Public {
 		return 0, false
 	}
+	// A response that names request headers it depends on may only be re-used for a request that
+	// sends the same ones. The cache key knows nothing about the headers of a subgraph request.
+	if len(headers.Values("Vary")) != 0 {
+		return 0, false
+	}
 
 	switch {
 	case cc.SMaxAge != nil:
